@@ -503,10 +503,25 @@ def compositions(singles: Sequence[MacroContract], tier: str, seed: int) -> Tupl
     return out, info
 
 
+def canaries(rep: Report, seed: int) -> None:
+    """the harness must be able to say no: three deliberately WRONG contracts (value, exit, frame) have to be refuted"""
+    H = hexc.H
+    wrong = [
+        MacroContract('canary.value', 'hex.add 2, x, y', {'x': H(2), 'y': H(2, 'in')}, lambda v: {'x': v['x'] + v['y'] + (v['y'] == 0x80)}, doc='(wrong on purpose)'),
+        MacroContract('canary.exit', 'hex.if 2, x, l0, l1', {'x': H(2, 'in')}, lambda v: {}, exits=('l0', 'l1'), exit_=lambda v: 'l0' if v['x'] in (0, 0x10) else 'l1', doc='(wrong on purpose)'),
+        MacroContract('canary.frame', 'hex.inc 2, y\n  hex.zero 2, x', {'x': H(2)}, lambda v: {'x': 0}, extra_decl='y: hex.vec 2', doc='(wrong on purpose)'),
+    ]
+    for c, r in zip(wrong, check_batch(wrong, 64, 'quick', seed, TUPLE_LIMIT['quick'])):
+        if not r['viols'] or (c.name == 'canary.frame' and 'changed memory outside' not in r['viols'][0].what):
+            rep.undecide(f'obligation=bounded:{c.name} reason=the harness accepted a deliberately wrong contract ({c.call!r}): its verdicts cannot be trusted')
+    rep.extra['canaries_refuted'] = [c.name for c in wrong]
+
+
 def body(tier: str, seed: int) -> int:
     rep = Report(PROP, 'quick' if tier.startswith('replay') else tier, seed, 'exploration', f'./check {PROP} --tier {tier}')
     t = 'thorough' if tier == 'thorough' else 'quick'
     limit = TUPLE_LIMIT[t]
+    canaries(rep, seed)
     singles = hexc.contracts(t, seed)
     comps, info = compositions(singles, t, seed)
     tabs, doms = hexc.table_contracts(t, seed)
